@@ -98,8 +98,12 @@ def r1(chk):
     # --- set_margin_from_cvrs
     fn = chk.fn(REL, "Assertion.set_margin_from_cvrs")
     tx = Tx()
+    tx.forward_stores = True  # `self.margin = m` ... `self.margin` later in the method is m (whether or not m also has a local name)
     tx.block(list(fn.body))
     got = tx.env.get("@self.test.u")
+    stored_margin = tx.env.get("@self.margin")
+    if isinstance(stored_margin, E):
+        want = symx.map_e(want, lambda e: e.subs(S("self.margin"), stored_margin.e))
     if got is None:
         chk.ob("C06.R1", W("Assertion.set_margin_from_cvrs"), "bound-by-audit-type", False, "the method stores self.test.u", node=fn)
     else:
